@@ -266,8 +266,25 @@ def prove_ge0(p, facts, depth=3, _seen=None, _budget=None):
     return False
 
 
+_PROVE_CACHE = {}
+
+
 def prove(goal, facts, budget=1500):
-    """goal: (rel, Poly) with rel in >= == !=.  Sound, incomplete."""
+    """goal: (rel, Poly) with rel in >= == !=.  Sound, incomplete.  Memoised on (goal, facts, budget)."""
+    facts = list(facts)
+    try:
+        ck = (goal[0], goal[1].key(), frozenset((r, f.key()) for r, f in facts), budget)
+    except Exception:
+        ck = None
+    if ck is not None and ck in _PROVE_CACHE:
+        return _PROVE_CACHE[ck]
+    r = _prove(goal, facts, budget)
+    if ck is not None and len(_PROVE_CACHE) < 200000:
+        _PROVE_CACHE[ck] = r
+    return r
+
+
+def _prove(goal, facts, budget=1500):
     rel, p = goal
     facts = list(facts)
     atoms = set(p.atoms())
